@@ -1,6 +1,6 @@
 ----------------------------- MODULE TraceAll -----------------------------
 (* The full-size trace specification: one disjunct per domain of events. *)
-EXTENDS TraceField, TraceScalar, TraceEdwards, TraceMisc, TraceVec, TraceMore, TraceMem, Params
+EXTENDS TraceField, TraceScalar, TraceEdwards, TraceMisc, TraceVec, TraceMore, TraceMem, TraceLeak, Params
 
 MetaOps == {"info", "reset", "force_backend"}
 MetaStep == /\ l <= Len(Rec) /\ Rec[l].op \in MetaOps
@@ -9,7 +9,7 @@ MetaStep == /\ l <= Len(Rec) /\ Rec[l].op \in MetaOps
             /\ (IF Rec[l].op = "reset" THEN regs' = <<>> ELSE UNCHANGED regs)
 
 Init == BaseInit
-Next == MetaStep \/ FieldStep \/ ScalarStep \/ EdStep \/ MontStep \/ MontToEdStep \/ RisStep \/ SigStep \/ VecStep \/ VecPointStep \/ ConstStep \/ MoreStep \/ NonspecMapStep \/ MemStep
+Next == MetaStep \/ FieldStep \/ ScalarStep \/ EdStep \/ MontStep \/ MontToEdStep \/ RisStep \/ SigStep \/ VecStep \/ VecPointStep \/ ConstStep \/ MoreStep \/ NonspecMapStep \/ MemStep \/ LeakStep
 vars == <<l, bad, regs>>
 Spec == Init /\ [][Next]_vars
 =============================================================================
